@@ -5,7 +5,6 @@ import (
 	"fmt"
 	"os"
 	"path/filepath"
-	"runtime"
 	"strings"
 	"syscall"
 	"testing"
@@ -540,32 +539,23 @@ func runMetaReal(c MetaRealCase) (res common.Result) {
 		err error
 	}
 	open := func() (openRes, bool, string) {
-		ch := make(chan openRes, 1)
+		var r openRes
+		doneCh := make(chan struct{})
 		go func() {
 			w, err := cfg.Open()
-			ch <- openRes{w, err}
+			r = openRes{w, err}
+			close(doneCh)
 		}()
-		select {
-		case r := <-ch:
-			return r, true, ""
-		case <-time.After(20 * time.Second):
-			buf := make([]byte, 1<<20)
-			return openRes{}, false, string(buf[:runtime.Stack(buf, true)])
+		// parked for good inside Open (e.g. bbolt Close waiting for a leaked transaction)?
+		if parked, st := common.WaitParked(doneCh, "raft-wal.Open", 2*time.Second, 5*time.Minute); parked {
+			return openRes{}, false, st
 		}
+		return r, true, ""
 	}
 	r, returned, dump := open()
 	if !returned {
-		// stack evidence: somebody must be parked inside raft-wal / bbolt on behalf of Open
-		for _, g := range strings.Split(dump, "\n\n") {
-			if strings.Contains(g, "raft-wal.Open") || strings.Contains(g, "raft-wal/metadb") {
-				if len(g) > 1500 {
-					g = g[:1500]
-				}
-				res.Fail = common.Failf("open-hangs", "wal.Open on a directory whose metadata record was damaged (%s) did not return within 20s; it is parked here:\n%s", c.Mut.Kind, g)
-				return
-			}
-		}
-		common.Inconclusive("Open did not return but no raft-wal frame is on any stack")
+		res.Fail = common.Failf("open-hangs", "wal.Open on a directory whose metadata record was damaged (%s) never returns; it is parked here (same state in two dumps):\n%s", c.Mut.Kind, dump)
+		return
 	}
 	if r.err == nil {
 		res.Classes = append(res.Classes, "real-meta-open-ok")
@@ -592,7 +582,7 @@ func runMetaReal(c MetaRealCase) (res common.Result) {
 	// a second Open must return as well
 	r2, returned, dump := open()
 	if !returned {
-		res.Fail = common.Failf("open-hangs", "the second Open of the same directory did not return within 20s:\n%s", firstWith(dump, "raft-wal"))
+		res.Fail = common.Failf("open-hangs", "the second Open of the same directory never returns:\n%s", dump)
 		return
 	}
 	if r2.err == nil {
